@@ -118,6 +118,16 @@ CHECKS = {
              "Only one fixture (WriteArgument.pdb, srcsrv) has API spelling different from the raw path; the generator gives it extra weight.",
         technique="Coq proof (decision rule of the source API as a function of the lookup frames; first-match characterisation) + differential correspondence run evaluated by vm_compute",
         design="4/C07,C09"),
+    "C08": dict(
+        text="PARTIAL by nature. Coq theorems show, for every input, that the transcribed panic sites of samply's own code cannot fire: C08_code_id_total (CodeId/PeCodeId/ElfBuildId::from_str on arbitrary UTF-8), "
+             "C08_symbolicate_total (unwrap / index / subtraction / expect sites of /symbolicate/v5), C08_breakpad_lookup_total (lookups through any index, also a stale one), C08_linebuffer_total, "
+             "C08_asm_loop_total and C08_asm_read_len_total. Everything else - serde_json, nom, object, addr2line, yaxpeax, debugid on arbitrary input, and hangs - is only exercised by a robustness run "
+             "(structure-aware request mutations, mutated/stale .sym and .symindex files, CodeId differential), which is fuzzing, not proof. F-C08a/b/c were found, fixed and stay in corpus/C08.",
+        note="Trusted / not proved: panic-freedom and termination of the third-party parsers; the fuzz streams sample. The claim is total over the transcribed sites and sampled over the rest; "
+             "hangs are only detected above a 20 s watchdog; debug build.",
+        technique="Coq proof of totality for the transcribed panic sites (corollaries of the C07/C10/C13/C20 models plus a CodeId string model) + robustness run (fuzzing) for the remainder",
+        category="proof",
+        design="4/C08"),
 }
 
 NOT_YET = "check not built yet in this development (planned: see DESIGN.md section 4); no claim is made"
